@@ -11,6 +11,7 @@ import stat
 import string
 import subprocess
 import sys
+import shlex
 import tempfile
 
 from common import Check, VERIF, correspond, decode_result, call_impl, finish_proof_failures, text2j, j2text, s2j
@@ -197,7 +198,7 @@ def main():
         if left:
             bad.append((desc, 'temporary entries left behind: %r' % left))
         ck.count('parses_checked_against_contract', sum(1 for r in runs for l in r if l.strip() == ''))
-        cases.append(dict(op=1502, arg=[len(text_units), s2j(args), ignore, [text2j(r) for r in runs]], site='ag.segment', desc=desc,
+        cases.append(dict(op=1502, arg=[len(text_units), [s2j(t) for t in shlex.split(args)], ignore, [text2j(r) for r in runs]], site='ag.segment', desc=desc,
                           impl=(lambda res=res: res), dec=lambda w: decode_result(w, j2text),
                           oracle=(lambda out, tu=text_units: ('segment raised ' + out[1]) if out[0] != 'ok' else gens.aligned(tu, out[1])),
                           nontrivial=lambda m: m[0] == 'raise' or any(' ' in u for u in m[1])))
@@ -212,7 +213,7 @@ def main():
             bad.append((desc, 'the raw output of a run could not be captured (result %r)' % (res,)))
         else:
             ck.count('large_output_bytes', sum(len(l.encode('utf8')) + 1 for r in runs for l in r))
-            cases.append(dict(op=1502, arg=[len(text_units), s2j(args), -200, [text2j(r) for r in runs]], site='ag.segment', desc=desc,
+            cases.append(dict(op=1502, arg=[len(text_units), [s2j(t) for t in shlex.split(args)], -200, [text2j(r) for r in runs]], site='ag.segment', desc=desc,
                               impl=(lambda res=res: res), dec=lambda w: decode_result(w, j2text),
                               oracle=(lambda out, tu=text_units: ('segment raised ' + out[1]) if out[0] != 'ok' else gens.aligned(tu, out[1])),
                               nontrivial=lambda m: True))
@@ -249,7 +250,7 @@ def main():
                     bad.append((desc, 'the ag program broke its contract: ' + cv))
             if left:
                 bad.append((desc, 'temporary entries left behind: %r' % left))
-            cases.append(dict(op=1502, arg=[len(tu), s2j(args), ignore, [text2j(r) for r in runs]], site='ag.segment', desc=desc,
+            cases.append(dict(op=1502, arg=[len(tu), [s2j(t) for t in shlex.split(args)], ignore, [text2j(r) for r in runs]], site='ag.segment', desc=desc,
                               impl=(lambda res=res: res), dec=lambda w: decode_result(w, j2text),
                               oracle=(lambda out, tu=tu: ('segment raised ' + out[1]) if out[0] != 'ok' else gens.aligned(tu, out[1])),
                               nontrivial=lambda m: True))
